@@ -19,14 +19,19 @@ package keepclient
 // (service discovery does network I/O and is outside the engine's reach).
 //@ func KeepClient.getRequestID property C11
 //@   modifies nothing
-// (service discovery talks to the API server; only its frame is assumed)
-//@ func KeepClient.discoverServices trusted
-//@   modifies KeepClient.localRoots KeepClient.writableLocalRoots KeepClient.gatewayRoots KeepClient.replicasPerService KeepClient.foundNonDiskSvc KeepClient.disableDiscovery map[string]string
+// Service discovery: a client whose service tables were given explicitly
+// (discovery disabled: SetServiceRoots / LoadKeepServicesFromJSON, where some
+// services may have been marked read-only) keeps exactly those tables -
+// nothing is looked up, nothing is replaced, whatever the environment says.
+//@ func KeepClient.discoverServices property C11,C12 safety -bounds,-nil
+//@   modifies KeepClient.localRoots KeepClient.writableLocalRoots KeepClient.gatewayRoots KeepClient.replicasPerService KeepClient.foundNonDiskSvc KeepClient.disableDiscovery map[string]string map[string]cachedSvcList map[string]bool Mem_any P__1_any P__3_any
+//@   ensures old(kc.disableDiscovery) ==> result == nil && kc.localRoots == old(kc.localRoots) && kc.writableLocalRoots == old(kc.writableLocalRoots) && kc.gatewayRoots == old(kc.gatewayRoots) && kc.replicasPerService == old(kc.replicasPerService) && kc.foundNonDiskSvc == old(kc.foundNonDiskSvc)
+//@   ensures old(kc.disableDiscovery) ==> (forall u string :: has(kc.writableLocalRoots, u) == old(has(kc.writableLocalRoots, u)))
 // The three getters return the map they are named after, as it is after
 // discovery - in particular an empty writable map stays empty (no fallback to
 // the full list).
 //@ func KeepClient.WritableLocalRoots property C11
-//@   modifies KeepClient.localRoots KeepClient.writableLocalRoots KeepClient.gatewayRoots KeepClient.replicasPerService KeepClient.foundNonDiskSvc KeepClient.disableDiscovery map[string]string
+//@   modifies KeepClient.localRoots KeepClient.writableLocalRoots KeepClient.gatewayRoots KeepClient.replicasPerService KeepClient.foundNonDiskSvc KeepClient.disableDiscovery map[string]string map[string]cachedSvcList map[string]bool Mem_any P__1_any P__3_any
 //@   ensures result == kc.writableLocalRoots
 
 //@ func KeepClient.putReplicas property C11 safety -bounds
@@ -120,10 +125,10 @@ package keepclient
 //@   loop 1: invariant forall k int :: 0 <= k && k < len(rs.root) ==> rs.root[k] == old(rs.root[k])
 
 //@ func KeepClient.GatewayRoots property C12
-//@   modifies KeepClient.localRoots KeepClient.writableLocalRoots KeepClient.gatewayRoots KeepClient.replicasPerService KeepClient.foundNonDiskSvc KeepClient.disableDiscovery map[string]string
+//@   modifies KeepClient.localRoots KeepClient.writableLocalRoots KeepClient.gatewayRoots KeepClient.replicasPerService KeepClient.foundNonDiskSvc KeepClient.disableDiscovery map[string]string map[string]cachedSvcList map[string]bool Mem_any P__1_any P__3_any
 //@   ensures result == kc.gatewayRoots
 //@ func KeepClient.LocalRoots property C12
-//@   modifies KeepClient.localRoots KeepClient.writableLocalRoots KeepClient.gatewayRoots KeepClient.replicasPerService KeepClient.foundNonDiskSvc KeepClient.disableDiscovery map[string]string
+//@   modifies KeepClient.localRoots KeepClient.writableLocalRoots KeepClient.gatewayRoots KeepClient.replicasPerService KeepClient.foundNonDiskSvc KeepClient.disableDiscovery map[string]string map[string]cachedSvcList map[string]bool Mem_any P__1_any P__3_any
 //@   ensures result == kc.localRoots
 
 // getSortedRoots: every "+"-separated part of the locator is examined; a part
@@ -273,6 +278,12 @@ package keepclient
 //@   requires kc.Retries >= 0
 //@   calls KeepClient.PutHB#1: requires $0 == md5hex(string(buffer)) && $1 == buffer
 
+// PutHB's reader factory: every upload attempt gets a reader of its own over
+// the whole block (uploads to disk services run concurrently: a shared reader
+// would hand each of them a part of the data).
+//@ func KeepClient.PutHB$1 property C11
+//@   only calls: bytes.NewBuffer
+//@   calls bytes.NewBuffer#1: requires $0 == buf
 //@ func KeepClient.PutHB property C11
 //@   requires kc.Retries >= 0
 //@   calls KeepClient.putReplicas#1: requires $0 == hash && $2 == int64(len(buf))
@@ -287,7 +298,7 @@ package keepclient
 // root; a writable non-disk service makes the replicas-per-service count
 // unknown (0), otherwise it is 1.
 //@ func KeepClient.setServiceRoots property C11
-//@   modifies KeepClient.localRoots KeepClient.writableLocalRoots KeepClient.gatewayRoots
+//@   modifies KeepClient.localRoots KeepClient.writableLocalRoots KeepClient.gatewayRoots map[string]cachedSvcList map[string]bool Mem_any P__1_any P__3_any
 //@   ensures kc.localRoots == locals && kc.writableLocalRoots == writables && kc.gatewayRoots == gateways
 //@ spec macro listedWritable(list, n, u) bool = exists k int :: 0 <= k && k < n && list.Items[k].Uuid == u && !list.Items[k].ReadOnly
 //@ func KeepClient.loadKeepServers property C11,C12 safety -bounds
